@@ -188,8 +188,18 @@ func VerifC05_SignVerifyExtended() {
 	case 1:
 		ad.ExtendedProvider.Override = !ad.ExtendedProvider.Override
 	case 2:
-		y := c05newKey()
-		p.ID = y.id.String()
+		if verif_Bool("newIdentityIsListedInAnotherEntry") {
+			// the identity of the other entry: each entry is verified on its own
+			for i := range ad.ExtendedProvider.Providers {
+				if q := &ad.ExtendedProvider.Providers[i]; q != p {
+					p.ID = q.ID
+					break
+				}
+			}
+		} else {
+			y := c05newKey()
+			p.ID = y.id.String()
+		}
 	case 3:
 		verif_Assume(len(p.Addresses) > 0)
 		old := p.Addresses[0]
